@@ -9,6 +9,7 @@ Mako's text.  A second, small grid places named blocks at every pair of position
 the compile-time rejections.
 """
 
+import hashlib
 import json
 import os
 import sys
@@ -52,21 +53,22 @@ ASSUMPTIONS = [
     "`next` in the most-derived template and `parent` in the base-most one are not defined by the statement: never generated",
     "an unresolvable member is an AttributeError (documented: hasattr/getattr on namespaces); the probes P/A catch exactly that",
     "a chain whose reference evaluation exceeds 64 nested render callables is infinite (callables are stateless); Mako must then raise RecursionError (interpreter limit lowered to 400 frames during the render only)",
-    "a def and a block of one name in one template: CompileException or acceptance are both allowed (the statement speaks of block names); any other exception is a violation",
+    "a top-level def and a block of one name in one template must be a CompileException (documented with the uniqueness rule); a nested def of that name: CompileException or acceptance both allowed",
+    "DONT_CARE region: a named-block position that dispatches to a def whose signature takes no keyword arguments while the page has keyword arguments (the position forwards **pageargs; an override with an incompatible signature is the template author's error): only 'terminates' is demanded there. Family A declares its defs (**kw), so the def-overrides-block dispatch itself is checked",
     "member names avoid Namespace's own attributes (name, uri, template, context, module, filename, cache, attr, inherits, callables), which shadow members by construction",
     "level templates are compiled once per (uri, text) and re-used across chains; the lookup is a real TemplateLookup filled with put_template (lookup behaviour itself belongs to C07/C14)",
     "templates are printed on one line (newline handling belongs to C01); the seed only picks member/attribute names, filler characters and uri spelling",
 ]
 BOUNDS = {
     "quick": {
-        "A": "L<=3, two member names x 6 kinds + nesting, chaining {none,next.body(),self.body()} per non-leaf level",
+        "A": "L<=2: two member names x 6 kinds + nesting; L=3: first name 6 kinds, second name {absent,def,block,block calling parent} + nesting; chaining {none,next.body(),self.body()} per non-leaf level; defs declared (**kw)",
         "B": "L=4, one member name x 6 kinds, same chaining",
         "C": "L<=3, member {absent,def,block} x page args x anonymous blocks x chaining {none,next,self,next(z=),self(z=)}",
         "D": "L<=4, member {absent,def} x module attribute x static/dynamic inherit x chaining {none,next}",
         "errors": "11 positions: singles, ordered pairs x same/different name, block-in-block, def+block, anonymous pairs; standalone and as base of a 2-chain",
     },
     "thorough": {
-        "A": "L<=3 as quick; L=4 two member names with uniform chaining (all none / all next / all self)",
+        "A": "L<=3: two member names x 6 kinds + nesting, full chaining; L=4: the same with uniform chaining (all none / all next / all self)",
         "B": "L=4 and L=5, one member name, full chaining",
         "C": "L<=4",
         "D": "L<=5",
@@ -310,7 +312,7 @@ def plan(tier, seed):
     jobs = []
     for gi, g in enumerate(ir.grids(tier)):
         n = ir.grid_size(g)
-        ns = max(1, min(256, -(-n // TARGET_PER_JOB[tier])))
+        ns = max(1, min(256, ir.grid_prefixes(g), -(-n // TARGET_PER_JOB[tier])))
         for sh in range(ns):
             jobs.append({"kind": "chains", "tier": tier, "seed": seed, "grid": gi, "shard": sh, "nshards": ns, "size": n})
     jobs.append({"kind": "grid", "tier": tier, "seed": seed})
@@ -350,17 +352,14 @@ def _run_job(job, st):
     fam, L = g[0], g[1]
     sh, ns = job["shard"], job["nshards"]
     R = runner()
-    c0 = R.compiles
     seen = set()
-    idx = -1
+    level_texts = set()
     nchains = 0
-    for chain in ir.grid_chains(g):
-        idx += 1
-        if idx % ns != sh:
-            continue
+    for chain in ir.grid_chains(g, sh, ns):
         nchains += 1
         ok, texts, exp, obs = check_chain(g, chain, seed, st, R, twice=(nchains % 64 == 1))
-        key = tuple(texts.values())
+        key = hashlib.blake2b("\x00".join(texts.values()).encode("utf-8", "surrogatepass"), digest_size=10).digest()
+        level_texts.update(texts.items())
         if key not in seen:
             seen.add(key)
             st.states += 1
@@ -369,8 +368,10 @@ def _run_job(job, st):
         if nchains % 2503 == 1:
             st.sample({"family": fam, "L": L, "chain": [list(s) for s in chain], "files": texts, "expected": list(exp)})
     st.extra["chains_" + fam[:1] + str(L)] = nchains
-    st.extra["level_templates_compiled"] = R.compiles - c0
-    st.evaluations += R.compiles - c0
+    # each distinct level text is compiled once per worker and shared by the chains that contain it; counted per
+    # job (deterministic), whatever the worker's cache already held
+    st.extra["level_templates"] = len(level_texts)
+    st.evaluations += len(level_texts)
     return st
 
 
@@ -410,6 +411,8 @@ def corpus(limit=400):
                 continue
             prog = ir.build_program(chain, al, g[3], g[4])
             exp, _ = ir.reference(prog, c06_env.resolve_ctx(prog["ctx"]))
+            if exp[0] == "dontcare" or exp == ("err", "recursion"):
+                continue  # answer not fixed / depends on the interpreter's recursion limit
             yield {"files": ir.print_program(prog), "main": prog["main"], "ctx": dict(prog["ctx"]), "expected": exp[1] if exp[0] == "out" else None, "template_kwargs": {}}
 
     for g in ir.grids("quick"):
